@@ -116,3 +116,22 @@ func DefaultSXG(g *mon.Rand, ver version.Version, id *Identity, host string, pay
 		ValidityURL: "https://" + host + "/resource.validity", ID: id,
 	}
 }
+
+// Renewed returns an identity with the SAME key but a freshly issued leaf certificate (a renewal).
+func (id *Identity) Renewed(serial int64) *Identity {
+	n := &Identity{Key: id.Key, CertURL: id.CertURL}
+	host := id.Certs[0].Subject.CommonName
+	leaf := Cert(id.Key, CertOpts{CN: host, DNS: []string{host}, Serial: serial, NotBefore: id.Certs[0].NotBefore.Add(24 * time.Hour)})
+	n.Certs = append([]*x509.Certificate{leaf}, id.Certs[1:]...)
+	ch, err := certurl.NewCertChain(n.Certs, []byte("ocsp-renewed"), nil)
+	if err != nil {
+		panic(err)
+	}
+	n.Chain = ch
+	var buf bytes.Buffer
+	if err := ch.Write(&buf); err != nil {
+		panic(err)
+	}
+	n.CBOR = buf.Bytes()
+	return n
+}
